@@ -307,8 +307,7 @@ def coq_bad_indices(prop, requires, check_fn, cases, chunk=300, workdir=None,
                 # the literal is an argument of bad_idx_ so that its element type is
                 # fixed by the domain of the check function (a list whose tuples all
                 # have [] / None in the same place could not be typed on its own)
-                f"Definition check_fn_ := ({check_fn}).\n"
-                f"Eval vm_compute in (bad_idx_ check_fn_ 0\n [{body}]).\n"
+                f"Eval vm_compute in (bad_idx_ ({check_fn}) 0\n [{body}]).\n"
             )
             with open(os.path.join(workdir, name + ".v"), "w") as fh:
                 fh.write(text)
